@@ -3,6 +3,9 @@
    (`dexists` is lstat-existence of the mapped target). *)
 From XcpModel Require Import Base Backup Paths Walker Meta.
 From XcpProofs Require Import WalkerProofs MetaProofs.
+From XcpModel Require Import Extracted.
+From XcpProofs Require Import ExtractedOk.
+From Coq Require Import String.
 
 (* no operation (copy, link, mkdir, mknod) is ever emitted for a target that
    exists — in successful AND failing walks, for every tree and matcher *)
@@ -30,7 +33,15 @@ Theorem C08_special_worker_refuses : forall umask src,
   special_worker true true umask src = None.
 Proof. reflexivity. Qed.
 
+(* ---- tie to the current source (translator): the no-clobber check precedes the dispatch, ends the walk, and
+   probes the target with lstat (a dangling link counts as existing) ---- *)
+Theorem C08_src_noclobber_check :
+  x_walker_noclobber_stops_before_dispatch = true /\
+  x_walker_noclobber_condition = "config.no_clobber&&target.symlink_metadata().is_ok()"%string.
+Proof. split; [apply x_walker_shape_ok|apply (proj1 (proj2 x_walker_shape_ok))]. Qed.
+
 Print Assumptions C08_noclobber_no_op_on_existing.
 Print Assumptions C08_noclobber_collision_fails.
 Print Assumptions C08_noclobber_frame.
 Print Assumptions C08_special_worker_refuses.
+Print Assumptions C08_src_noclobber_check.
